@@ -16,6 +16,8 @@ template class tulz::Array<int>;
 template class tulz::Array<unsigned char>;
 template class tulz::Array<std::string>;
 template class tulz::Array<w::W>;
+template class tulz::Array<w::Tok>;
+template class tulz::Array<w::Pod>;
 
 template class tulz::RandomAccessIndexIterator<int, tulz::RingBuffer<int, false>>;
 template class tulz::RandomAccessIndexIterator<const std::string, const tulz::RingBuffer<std::string, true>>;
